@@ -10,6 +10,7 @@
 #include <crab/types/indexable.hpp>
 
 #include <boost/range/iterator_range.hpp>
+#include <algorithm>
 #include <unordered_map>
 #include <unordered_set>
 
@@ -652,71 +653,85 @@ public:
                                              << "\tAFTER " << m_sol << "\n";);
     }
 
-    // For each key-value pair rename from variables with to variables
-    // *only* on the value. This is an expensive operation because it
-    // creates a new discrete_pair_domain from scratch.
-    template<typename Key>
-    static void rename(discrete_pair_domain<Key, var_dom_t> &dpd,
-		       const std::vector<variable_t> &from, const std::vector<variable_t> &to) {
-      using discrete_pair_domain_t = discrete_pair_domain<Key, var_dom_t>;
-      if (from.empty() || dpd.is_top() || dpd.is_bottom()) {
-	return;
+    // Translate a set of variables that holds at the entry of the callee
+    // into variables of the caller: each formal input is replaced with
+    // the corresponding actual parameter. All the replacements happen
+    // at once: the caller and the callee can use the same variable names
+    // (e.g., the actual parameters can be a permutation of the formal
+    // ones). Any other variable is propagated as it is.
+    static var_dom_t callee_to_caller(const var_dom_t &callee_vars,
+				      const std::vector<variable_t> &callee_inputs,
+				      const std::vector<variable_t> &callsite_inputs) {
+      if (callee_vars.is_top() || callee_vars.is_bottom()) {
+	return callee_vars;
       }
-      if (from.size() != to.size()) {
-	CRAB_ERROR("discrete_pair_domain::rename with input vectors of different sizes");
+      if (callee_inputs.size() != callsite_inputs.size()) {
+	CRAB_ERROR("assertion crawler: callsite and callee with different number of inputs");
       }
-      discrete_pair_domain_t res = discrete_pair_domain_t::bottom();
-      for (auto kv: dpd) {
-	auto key = kv.first;
-	auto dom = kv.second;
-	dom.rename(from, to);
-	res.set(key, dom);
+      var_dom_t res = var_dom_t::bottom();
+      for (auto it = callee_vars.begin(), et = callee_vars.end(); it != et; ++it) {
+	variable_t v = *it;
+	auto pos = std::find(callee_inputs.begin(), callee_inputs.end(), v);
+	if (pos != callee_inputs.end()) {
+	  res += callsite_inputs[std::distance(callee_inputs.begin(), pos)];
+	} else {
+	  res += v;
+	}
       }
-      std::swap(dpd, res);
+      return res;
     }
 
-    // dpd is of the form [key1 -> {o1,x1,...}, key2 -> {o2,x2,...}, ...]
-    //     
-    // sdd is a map that relates outputs with inputs.
-    //     It is of the form [o1 -> {i1,i2}, o2  -> {i3,i4}]
-    // This function replaces the occurrences of each sdd's key in dpd with its value.
-    // That is, [key1 -> {i1,i2,x1,...}, key2 -> {i3,i4,x2,...}, ...]
+    // dpd is of the form [key1 -> {x1,y1,...}, key2 -> {x2,y2,...}, ...]
+    // where x1,y1,... are variables of the caller that hold after the
+    // callsite.
+    //
+    // sdd is the callee's summary: it relates each formal output with
+    // the variables at the entry of the callee whose data may flow to
+    // it. It is of the form [o1 -> {i1,i2}, o2 -> {i3,i4}].
+    //
+    // This function replaces in dpd each variable defined by the
+    // callsite (and only those: a variable of the caller can have the
+    // same name as a formal parameter of the callee) with the actual
+    // parameters of the inputs on which the corresponding formal output
+    // depends.
     template<typename Key>
     static void apply_summary(discrete_pair_domain<Key, var_dom_t> &dpd,
-			      summary_dependencies_domain_t &sdd) {
-      auto outputs_to_inputs = [&sdd](const var_dom_t &var_dom) {
-				 if (var_dom.is_top()) {
-				   return var_dom_t::top();
-				 } else if (var_dom.is_bottom()) {
-				   return var_dom_t::bottom();
-				 } else {
-				   var_dom_t res = var_dom_t::bottom();
-				   for (auto it=var_dom.begin(), et=var_dom.end(); it!=et; ++it) {
-				     variable_t v = *it;
-				     var_dom_t inputs(sdd[v]);
-				     if (inputs.is_bottom()) {
-				       // the callee doesn't know
-				       // about v so we just propagate
-				       // it as it's.
-				       var_dom_t vs(v);
-				       res += vs; // not in sdd
-				     } else {
-				       res += inputs;
-				     }
-				   }
-				   return res;
-				 }};
-
-      using discrete_pair_domain_t = discrete_pair_domain<Key, var_dom_t>;      
+			      summary_dependencies_domain_t &sdd,
+			      const std::vector<variable_t> &callsite_outputs,
+			      const std::vector<variable_t> &callee_outputs,
+			      const std::vector<variable_t> &callee_inputs,
+			      const std::vector<variable_t> &callsite_inputs) {
+      using discrete_pair_domain_t = discrete_pair_domain<Key, var_dom_t>;
+      if (dpd.is_top() || dpd.is_bottom()) {
+	return;
+      }
+      if (callsite_outputs.size() != callee_outputs.size()) {
+	CRAB_ERROR("assertion crawler: callsite and callee with different number of outputs");
+      }
       discrete_pair_domain_t out = discrete_pair_domain_t::bottom();
       for (auto kv: dpd) {
-	var_dom_t res = outputs_to_inputs(kv.second);
+	const var_dom_t &var_dom = kv.second;
+	if (var_dom.is_top() || var_dom.is_bottom()) {
+	  out.set(kv.first, var_dom);
+	  continue;
+	}
+	var_dom_t res = var_dom_t::bottom();
+	for (auto it = var_dom.begin(), et = var_dom.end(); it != et; ++it) {
+	  variable_t v = *it;
+	  auto pos = std::find(callsite_outputs.begin(), callsite_outputs.end(), v);
+	  if (pos == callsite_outputs.end()) {
+	    // not defined by the callsite
+	    res += v;
+	  } else {
+	    var_dom_t inputs(sdd[callee_outputs[std::distance(callsite_outputs.begin(), pos)]]);
+	    res += callee_to_caller(inputs, callee_inputs, callsite_inputs);
+	  }
+	}
 	out.set(kv.first, res);
       }
       std::swap(dpd, out);
     }
-				      
-    
+
     virtual void visit(callsite_t &s) override {
 
       CRAB_LOG("assertion-crawler-step-cs", crab::outs()
@@ -747,19 +762,24 @@ public:
 
 	// -- Update assertion map domain at the caller
 	assert_map_domain_t amd(m_sol.get_first());
-	rename(amd, callsite_outputs, callee_outputs);
-	apply_summary(amd, callee_summary.get_second());
-	rename(amd, callee_inputs, callsite_inputs);
+	apply_summary(amd, callee_summary.get_second(),
+		      callsite_outputs, callee_outputs, callee_inputs, callsite_inputs);
 	// Propagate the assertion map domain from the callee to the caller
 	assert_map_domain_t callee_amd(callee_summary.get_first());
-	rename(callee_amd, callee_inputs, callsite_inputs);
+	if (!callee_amd.is_top() && !callee_amd.is_bottom()) {
+	  assert_map_domain_t renamed_callee_amd = assert_map_domain_t::bottom();
+	  for (auto kv: callee_amd) {
+	    renamed_callee_amd.set(kv.first,
+				   callee_to_caller(kv.second, callee_inputs, callsite_inputs));
+	  }
+	  std::swap(callee_amd, renamed_callee_amd);
+	}
 	m_sol.get_first() = amd | callee_amd;
 	
 	// -- Update the summary dependencies at the caller
 	summary_dependencies_domain_t sdm(m_sol.get_second());
-	rename(sdm, callsite_outputs, callee_outputs);
-	apply_summary(sdm, callee_summary.get_second());
-	rename(sdm, callee_inputs, callsite_inputs);
+	apply_summary(sdm, callee_summary.get_second(),
+		      callsite_outputs, callee_outputs, callee_inputs, callsite_inputs);
 	m_sol.get_second() = sdm;
       } else {
 	CRAB_LOG("assertion-crawler-step-cs",
